@@ -6,6 +6,7 @@
    3 DOC     : cfg  doc(tree)  opt(expected osm value)  uerr  opt(decoded osm value)
    4 CHANGE  : cfg  v(change value) merr tree uerr opt(decoded change value)
    6 BIG     : cfg n  derr summary  merr tree-summary  uerr summary   (see check_big)
+   7 ELEMENT outside the round-trip domain: kind v merr tree uerr opt(decoded)  (model + shape only)
    5 GO-ONLY : (nothing) — a case outside the modelled fragment (Changeset.Change non-nil),
                judged by the harness: marshal (unmarshal (marshal v)) = marshal v
    codes: 1 = model <> implementation (marshal tree, or unmarshal result class/value),
@@ -281,6 +282,20 @@ Definition check_big : P (list Z) :=
                      && negb uerr && zs_eqb usum (spec_summary n)) 2 in
   ret (dom ++ j1 ++ j2)%list.
 
+(* ---- 7 ELEMENT outside the round-trip domain (duplicate tag keys): model vs implementation
+   and the shape of the output only; no round-trip claim (Properties:
+   C05_roundtrip_with_duplicate_tag_keys_refuted) ---- *)
+Definition check_elem_model_only : P (list Z) :=
+  k <- pint ;; v <- pv ;; merr <- pbool ;; tree <- pj ;; uerr <- pbool ;; dv <- popt pv ;;
+  match elem_ty k with
+  | None => ret [0]
+  | Some t =>
+      let j1m := code_if (negb merr && json_equivb (enc std t v) tree) 1 in
+      let j1u := cmp_res (dec t tree) uerr dv (equivb t) in
+      let j2 := code_if (negb merr && (if k =? 6 then true else element_shape tree) && negb uerr) 2 in
+      ret (j1m ++ j1u ++ j2)%list
+  end.
+
 Definition check_case (t : toks) : list Z :=
   match parse_all (tag <- pint ;;
                    if tag =? 1 then check_osm
@@ -289,6 +304,7 @@ Definition check_case (t : toks) : list Z :=
                    else if tag =? 4 then check_change
                    else if tag =? 5 then ret []   (* judged on the Go side only (OracleFail) *)
                    else if tag =? 6 then check_big
+                   else if tag =? 7 then check_elem_model_only
                    else pfail) t with
   | Some codes => codes
   | None => [0]
